@@ -27,6 +27,25 @@ CHECKS = {
         technique='contract-based deductive verification of the operator kernels (pvc/z3) + bounded differential '
                   'stand-in for the compiler passes',
         ref='DESIGN.md 7 C01'),
+    'C16': dict(
+        category='proof',
+        text='the status stack discipline (_control_ctx, control_status_ctx, ControlStatusCtx.__enter__/__exit__, '
+             'FunctionScope.__init__/__enter__/__exit__, with_function_scope, the do_not_convert and '
+             'call_with_unspecified_conversion_status wrappers) is proved against contracts for every callee that '
+             'leaves the stack as it found it, returning or raising; thread isolation follows from ownership of the '
+             'list by a threading.local attribute; a bounded stress run supplements it',
+        note='trusted: z3, pvc, threading.local semantics, the with-statement protocol; the induction hypothesis '
+             'about user callees is the only assumption about user code',
+        technique=TECH + ' with the with-rule on both exits; bounded random call trees x threads as supplement',
+        ref='DESIGN.md 7 C16'),
+    'C07': dict(
+        category='other',
+        text='proved kernels (transfer function, refinement lemma, worklist fixed point for all graphs) + assumed '
+             'contracts K2/K3 with bounded stand-ins (use-before-overwrite oracle over executed programs)',
+        note='the all-programs soundness clause rests on assumed contracts (CFG path inclusion, activity read/write '
+             'sets) that are only bounded-checked; termination not proved',
+        technique=TECH + '; bounded stand-ins for the assumed visitor contracts',
+        ref='DESIGN.md 7 C07'),
 }
 
 PENDING_REASON = 'check not built yet (work in progress in this session; see DESIGN.md section 7 for the plan)'
